@@ -470,6 +470,9 @@ func checkBrackets(c *core.Ctx) {
 			if !ok {
 				return false
 			}
+			if isHost, _ := hostBodyCall(info, call); isHost {
+				return true
+			}
 			se, ok := call.Fun.(*ast.SelectorExpr)
 			if !ok || se.Sel.Name != "Call" {
 				return false
